@@ -2,6 +2,7 @@ import DarkluaModel.C05.Lemmas
 import DarkluaModel.C05.Graph
 import DarkluaModel.C05.Dag
 import DarkluaModel.C05.Complete
+import DarkluaModel.C05.Compose
 /-!
 # C05 — a bundle behaves like the program with its modules required normally: property theorems
 
@@ -240,11 +241,16 @@ def referenceProgram (mods : List (String × Src)) (entry : Src) : Block :=
 the reserved identifiers (`M`, `__modImpl`, the `__ref_…` names) and pairwise distinct module names
 other than `cache`, whenever the program with the textbook `require` returns values `vs` with trace
 `tr` at some level, the bundle returns the same values with the same trace at some level.
-What is proved towards it is `bundle_refines_partial` below plus `accessor_memoises`,
-`definition_scoped`, `inline_dag`; what is missing is the frame argument for arbitrary module
-bodies (that running a body preserves the boxes of all other modules — needs monotonicity lemmas
-for the whole of `Sem`) and the induction over the definition order that it enables. The harness
-checks this statement by execution on every generated graph instead. -/
+What is proved towards it: `bundle_prelude_establishes` (the prelude for ANY number of modules
+sets up the bundle invariant `BI`), `bundle_dag_memoises` (induction over the definition order: if
+every body satisfies the frame contract `BodyOK` relative to the modules defined before it, every
+accessor call returns the module's value, runs the body at most once per run, and keeps `BI`),
+`accessor_memoises`, `definition_scoped`, `inline_dag` (the real emission order IS dependency
+order). What is still missing: discharging `BodyOK` for arbitrary module bodies (it is proved for
+leaf bodies, `bodyOK_leaf`; the general case needs heap-monotonicity of the whole of `Sem` — the
+relation `SRel` of Shared/VisitorSound compares states with EQUAL cells and tables, so it does not
+provide it) and the simulation between the bundle's heap and the reference program's heap. The
+harness checks the statement by execution on every generated graph instead. -/
 def bundle_refines_full : Prop :=
   ∀ (N : NumOps) (ρ : ExtOracle N) (externs : List String) (M : String) (mods : List (String × Src)) (entry : Src)
     (n : Nat) (vs : List CVal) (tr : List Event),
@@ -272,6 +278,159 @@ example (call : CallFn natOps) (ρ : ExtOracle natOps) (hname : "a".toUTF8.toLis
       ({ globals := [], trace := [], cells := [], tables := [], closures := [] } : State natOps)
       = .ok (.next ⟨[("__DARKLUA_BUNDLE_MODULES", 0)], []⟩) σ' :=
   ⟨_, bundle_refines_partial call ρ 0 ⟨[], []⟩ "__DARKLUA_BUNDLE_MODULES" "a" exBody _ (by decide) hname⟩
+
+/-! ## Composition over the definition order (any number of modules) -/
+
+/-- **The prelude for any number of modules**: executing the statements the bundler inserts in front
+of the entry — the modules table, then one definition per module (names pairwise distinct as
+table keys and different from `cache`) — adds only `M` to the entry's scope and establishes the
+bundle invariant `BI`: every module's accessor is stored in `M.<name>` with its own `__modImpl`
+wrapper, `M.cache` is an empty plain table, nothing is loaded. No module body runs. -/
+theorem bundle_prelude_establishes (call : CallFn N) (ρ : ExtOracle N) (k : Nat) (env : Env N) (M : String)
+    (mods : List (String × Block)) (σ : State N)
+    (hne : mods ≠ []) (hMv : M ≠ "v") (hMI : M ≠ implName)
+    (hnodup : (mods.map fun nb => bytesOf nb.1).Nodup)
+    (hcache : ∀ nb ∈ mods, bytesOf nb.1 ≠ bytesOf "cache") :
+    ∃ (infos : List ModInfo) (σ' : State N),
+      infos.map (fun m => (m.name, m.body)) = mods ∧
+      execSs call ρ (k + 1) env (prelude M mods) σ
+        = .ok (.next ⟨(M, σ.cells.length) :: env.locals, env.varargs⟩) σ' ∧
+      BI (layoutOf M env σ) infos (fun _ => none) σ' :=
+  prelude_establishes call ρ k env M mods σ hne hMv hMI hnodup hcache
+
+/-- What a call of module `m`'s accessor does at level `n + 2`, in ANY state satisfying the bundle
+invariant: it returns one value `w`, re-establishes the invariant with `m` loaded holding `w`,
+never unloads or changes an already loaded module, and — when `m` was already loaded — returns the
+stored value without running anything (trace and load map unchanged). -/
+def AccSpec (ρ : ExtOracle N) (L : Layout) (mods : List ModInfo) (m : ModInfo) (n : Nat) : Prop :=
+  ∀ (loaded : String → Option (Nat × Val N)) (args : List (Val N)) (σ : State N), BI L mods loaded σ →
+    ∃ (w : Val N) (σ' : State N) (loaded' : String → Option (Nat × Val N)),
+      callClosure ρ (n + 2) (accClosure L.M m.name (m.locals L)) args σ = .ok [w] σ' ∧
+      BI L mods loaded' σ' ∧
+      (∃ tb, loaded' m.name = some (tb, w)) ∧
+      (∀ name x, loaded name = some x → loaded' name = some x) ∧
+      (∀ tb w0, loaded m.name = some (tb, w0) → w = w0 ∧ σ'.trace = σ.trace ∧ loaded' = loaded)
+
+/-- The assumption on a module body (the frame hypotheses of `accessor_memoises`, now relative to
+the invariant of the whole bundle): GIVEN that the accessors of the modules in `deps` behave as
+`AccSpec` says (at the levels `lvl` allows), the run of `m`'s wrapper from the state in which its
+accessor calls it returns, keeps the invariant (possibly with more modules loaded, `m` itself not),
+and leaves the accessor's fresh cell and box table alone. -/
+def BodyOK (ρ : ExtOracle N) (L : Layout) (mods : List ModInfo) (lvl : ModInfo → Nat → Prop) (m : ModInfo) (n : Nat)
+    (deps : List ModInfo) : Prop :=
+  (∀ d ∈ deps, ∀ n', lvl d n' → AccSpec ρ L mods d n') →
+  ∀ (loaded : String → Option (Nat × Val N)) (σ : State N), BI L mods loaded σ → loaded m.name = none →
+    ∃ (vs : List (Val N)) (σb : State N) (loaded' : String → Option (Nat × Val N)),
+      callClosure ρ (n + 1) (implClosure m.body (m.locals L)) []
+        ((σ.allocCell .nil).2.allocTable { entries := [], mt := none }).2 = .ok vs σb ∧
+      BI L mods loaded' σb ∧ loaded' m.name = none ∧
+      (∀ name x, loaded name = some x → loaded' name = some x) ∧
+      σ.cells.length < σb.cells.length ∧ σ.tables.length < σb.tables.length ∧
+      σb.getTable σ.tables.length = { entries := [], mt := none } ∧
+      (∀ m' ∈ mods, ∀ tb w, loaded' m'.name = some (tb, w) → tb ≠ σ.tables.length)
+
+/-- **`bundle_dag_memoises`** — induction over the definition order. Let the modules `mods` be laid
+out as the prelude leaves them, in definition order (dependencies first, as `inline_dag` proves for
+the real emission order), and let every body satisfy `BodyOK` relative to the modules defined
+BEFORE it. Then every accessor satisfies `AccSpec` at every admissible level: each call returns
+the module's single value, a module body runs at most once in the whole run (a loaded module is
+answered from its box with no event), all requirers receive the same value, values of loaded
+modules never change, and the invariant — hence all of this — holds again after the call. -/
+theorem bundle_dag_memoises (ρ : ExtOracle N) (L : Layout) (mods : List ModInfo) (lvl : ModInfo → Nat → Prop)
+    (hkeys : KeysDistinct mods)
+    (hbody : ∀ (i : Nat) (m : ModInfo) (n : Nat), mods[i]? = some m → lvl m n → BodyOK ρ L mods lvl m n (mods.take i)) :
+    ∀ (i : Nat) (m : ModInfo) (n : Nat), mods[i]? = some m → lvl m n → AccSpec ρ L mods m n := by
+  intro i
+  induction i using Nat.strongRecOn with
+  | _ i ih =>
+    intro m n hmi hl loaded args σ hBI
+    have hm : m ∈ mods := List.mem_of_getElem? hmi
+    have hdeps : ∀ d ∈ mods.take i, ∀ n', lvl d n' → AccSpec ρ L mods d n' := by
+      intro d hd n' hl'
+      obtain ⟨j, hj⟩ := List.getElem?_of_mem hd
+      have hjlt : j < i := by
+        by_cases h : j < i
+        · exact h
+        · have : (mods.take i)[j]? = none := by
+            simp only [List.getElem?_take]; simp [h]
+          rw [this] at hj; cases hj
+      have hj' : mods[j]? = some d := by
+        simp only [List.getElem?_take, hjlt, if_true] at hj; exact hj
+      exact ih j hjlt d n' hj' hl'
+    cases hload : loaded m.name with
+    | some p =>
+      obtain ⟨tb, w0⟩ := p
+      have hh := bi_hit (callClosure ρ (n + 1)) ρ n L mods loaded m hm tb w0 [] σ hBI hload
+      refine ⟨w0, (σ.allocCell (.tbl tb)).2, loaded, ?_, hh.2, ⟨tb, hload⟩, fun _ _ h => h, ?_⟩
+      · simp only [accClosure, accFn]
+        rw [callClosure_noparams, hh.1]
+      · intro tb' w0' h
+        cases h
+        exact ⟨rfl, rfl, rfl⟩
+    | none =>
+      obtain ⟨vs, σb, loaded', hrun, hb, hl', hmono, fcells, ftables, fboxT, hfresh⟩ :=
+        hbody i m n hmi hl hdeps loaded σ hBI hload
+      have hmiss := bi_miss (callClosure ρ (n + 1)) ρ n L mods hkeys loaded loaded' m hm [] vs σ σb hBI hload hrun hb
+        hl' fcells ftables fboxT hfresh
+      refine ⟨first vs, _, updLoaded loaded' m.name (σ.tables.length, first vs), ?_, hmiss.2, ?_, ?_, ?_⟩
+      · simp only [accClosure, accFn]
+        rw [callClosure_noparams, hmiss.1]
+      · exact ⟨σ.tables.length, by simp [updLoaded]⟩
+      · intro name x hx
+        have hne : name ≠ m.name := by
+          intro e; rw [e, hload] at hx; cases hx
+        simp [updLoaded, hne, hmono name x hx]
+      · intro tb w0 h; cases h
+
+-- non-vacuity of `bundle_prelude_establishes` (two modules; the byte inequalities of the literal
+-- names are passed in because string literals do not reduce in the kernel)
+example (call : CallFn natOps) (ρ : ExtOracle natOps) (σ : State natOps)
+    (hab : bytesOf "a" ≠ bytesOf "b") (hac : bytesOf "a" ≠ bytesOf "cache") (hbc : bytesOf "b" ≠ bytesOf "cache") :
+    ∃ infos σ', infos.map (fun m => (m.name, m.body)) = [("a", exBody), ("b", exBody)] ∧
+      execSs call ρ 1 ⟨[], []⟩ (prelude "__DARKLUA_BUNDLE_MODULES" [("a", exBody), ("b", exBody)]) σ
+        = .ok (.next ⟨[("__DARKLUA_BUNDLE_MODULES", σ.cells.length)], []⟩) σ' ∧
+      BI (layoutOf "__DARKLUA_BUNDLE_MODULES" ⟨[], []⟩ σ) infos (fun _ => none) σ' :=
+  bundle_prelude_establishes call ρ 0 ⟨[], []⟩ "__DARKLUA_BUNDLE_MODULES" _ σ (by simp) (by decide) (by decide)
+    (by simp [hab])
+    (by
+      intro nb hnb
+      simp at hnb
+      rcases hnb with h | h <;> subst h
+      · exact hac
+      · exact hbc)
+
+/-- a module whose body is `return false` (no requires) satisfies `BodyOK` in every bundle -/
+theorem bodyOK_leaf (ρ : ExtOracle N) (L : Layout) (mods : List ModInfo) (lvl : ModInfo → Nat → Prop) (m : ModInfo)
+    (hbodyEq : m.body = .mk [] (some (.ret [.false]))) (n : Nat) (deps : List ModInfo) :
+    BodyOK ρ L mods lvl m n deps := by
+  intro _ loaded σ hBI hl
+  refine ⟨[.bool false], ((σ.allocCell .nil).2.allocTable { entries := [], mt := none }).2, loaded, ?_,
+    (hBI.allocCell _).allocTable, hl, fun _ _ h => h, ?_, ?_, ?_, ?_⟩
+  · simp [callClosure, implClosure, implFn, hbodyEq, execB, execSs, execLast, evalEs, evalE, Res.bind, bindLocals]
+  · simp [State.allocCell, State.allocTable]
+  · simp [State.allocCell, State.allocTable]
+  · simp [State.allocCell, State.allocTable, State.getTable]
+  · intro m' hm' tb w hlw
+    have sl := hBI.slots m' hm'
+    rw [hlw] at sl
+    have := sl.2.2.2.2.2
+    omega
+
+-- non-vacuity of `bundle_dag_memoises`: a one-module bundle whose module returns `false`; in every
+-- state satisfying the invariant its accessor obeys `AccSpec` at every level
+example (ρ : ExtOracle natOps) (L : Layout) (cI i a : Nat) (n : Nat) :
+    AccSpec ρ L [⟨"a", exBody, cI, i, a⟩] ⟨"a", exBody, cI, i, a⟩ n :=
+  bundle_dag_memoises ρ L [⟨"a", exBody, cI, i, a⟩] (fun _ _ => True)
+    (by intro m hm m' hm' _; simp at hm hm'; rw [hm, hm'])
+    (by
+      intro j m n hj _
+      have hm : m = ⟨"a", exBody, cI, i, a⟩ := by
+        cases j with
+        | zero => simpa using hj.symm
+        | succ j => simp at hj
+      subst hm
+      exact bodyOK_leaf ρ L _ _ _ rfl n _)
+    0 _ n rfl trivial
 
 /-! ## The inlining walk (`RequirePathProcessor`) -/
 
